@@ -2,6 +2,7 @@ import OSModel
 import OSProofs.SortLemmas
 import OSProofs.Props.C02
 import OSProofs.Props.C20
+import OSProofs.GammaLemmas
 /-!
 # Helper lemmas for C20b (`rate` reads a rating only through its (mu, sigma))
 
@@ -65,20 +66,31 @@ theorem plA_reid (f : Nat → Nat) (ts : List (TeamAgg α)) :
   simp only [plA, List.map_map, List.filter_map, Function.comp_def, reidAgg_rank, List.length_map]
   rfl
 
-theorem plOmegaDelta_reid (f : Nat → Nat) (g : GammaFn α) (ts : List (TeamAgg α)) (c : α)
-    (sq : List α) (a : List Nat) (i : Nat) (ti : TeamAgg α) :
+/-- the gamma call for a team whose players' ids were replaced, for an id-invariant callback -/
+theorem gam_reidAgg_gamma (f : Nat → Nat) (g : GammaFn α) (hg : GammaIdInv g) (c : α) (n : Nat)
+    (t : TeamAgg α) :
+    gammaVal g c n t.mu t.sig2 (t.players.map (fun p => { p with id := f p.id })) t.rank
+      = gammaVal g c n t.mu t.sig2 t.players t.rank :=
+  hg f c n t.mu t.sig2 t.players t.rank
+
+theorem plOmegaDelta_reid (f : Nat → Nat) (g : GammaFn α) (hg : GammaIdInv g) (ts : List (TeamAgg α))
+    (c : α) (sq : List α) (a : List Nat) (i : Nat) (ti : TeamAgg α) :
     plOmegaDelta g (ts.map (reidAgg f)) c sq a i (reidAgg f ti) = plOmegaDelta g ts c sq a i ti := by
   simp only [plOmegaDelta, List.zip_map_left, List.zipIdx_map, List.map_map, List.filter_map,
     Function.comp_def, Prod.map, reidAgg_mu, reidAgg_rank, reidAgg_sig2, List.length_map, id]
+  simp only [reidAgg, gam_reidAgg_gamma f g hg]
   rfl
 
-theorem btPair_reid (f : Nat → Nat) (beta : α) (g : GammaFn α) (n : Nat) (ti tq : TeamAgg α) :
-    btPair beta g n (reidAgg f ti) (reidAgg f tq) = btPair beta g n ti tq := rfl
-
-theorem tmPair_reid (f : Nat → Nat) (L : Leaves α) (cmul beta kappa : α) (g : GammaFn α) (n : Nat)
+theorem btPair_reid (f : Nat → Nat) (beta : α) (g : GammaFn α) (hg : GammaIdInv g) (n : Nat)
     (ti tq : TeamAgg α) :
-    tmPair L cmul beta kappa g n (reidAgg f ti) (reidAgg f tq) = tmPair L cmul beta kappa g n ti tq :=
+    btPair beta g n (reidAgg f ti) (reidAgg f tq) = btPair beta g n ti tq := by
+  simp only [btPair, reidAgg, gam_reidAgg_gamma f g hg]
   rfl
+
+theorem tmPair_reid (f : Nat → Nat) (L : Leaves α) (cmul beta kappa : α) (g : GammaFn α)
+    (hg : GammaIdInv g) (n : Nat) (ti tq : TeamAgg α) :
+    tmPair L cmul beta kappa g n (reidAgg f ti) (reidAgg f tq) = tmPair L cmul beta kappa g n ti tq := by
+  simp only [tmPair, reidAgg, gam_reidAgg_gamma f g hg]
 
 theorem othersOf_map {β γ : Type} (h : β → γ) (ts : List β) (i : Nat) :
     othersOf (ts.map h) i = (othersOf ts i).map h := by
